@@ -14,12 +14,32 @@ func clampRef(in *[32]byte) [32]byte {
 
 // ScalarMult: dst = ladder(clamp(k), u) with the RFC 7748 clamping, for all 2^256 x 2^256 inputs.
 //
-//verif:ob prop=C07 name=ScalarMult_clamps_and_calls_ladder mode=bv tags=purego use=montabs
+// Every aliasing of the three arguments is a run of its own (dst == in is how the RFC's iterated test is written).
+//
+//verif:ob prop=C07 name=ScalarMult_clamps_and_calls_ladder mode=bv tags=purego use=montabs split=alias:0..3
 func vh_ScalarMult() {
 	var k, u, dst, want [32]byte
 	verif.AnyBytes("k", k[:])
 	verif.AnyBytes("u", u[:])
-	ScalarMult(&dst, &k, &u)
+	k0, u0 := k, u
+	switch verif.Case("alias") {
+	case 0:
+		ScalarMult(&dst, &k, &u)
+		verif.Assert(k == k0 && u == u0, "the inputs are not modified")
+	case 1:
+		ScalarMult(&k, &k, &u) // dst == in
+		dst = k
+		verif.Assert(u == u0, "the point is not modified")
+	case 2:
+		ScalarMult(&u, &k, &u) // dst == base
+		dst = u
+		verif.Assert(k == k0, "the scalar is not modified")
+	default:
+		ScalarMult(&k, &k, &k) // all three the same array
+		dst = k
+		u0 = k0
+	}
+	k, u = k0, u0
 	c := clampRef(&k)
 	verif.Assert(c[0]&7 == 0 && c[31]&128 == 0 && c[31]&64 == 64, "clamped scalar: low 3 bits clear, bit 255 clear, bit 254 set")
 	verif.UFBytes("x25519_ladder", want[:], c[:], u[:])
